@@ -131,6 +131,24 @@ func init() {
 		"IsScalar": func(c *Ctx, s *Shadow, args []Value, sig *types.Signature) Value {
 			return c.St.BoolC(s.ids.IsScalar())
 		},
+		// layout predicates: answered by the twin (same layout as the id tensor, real dtype)
+		"IsNativelyAccessible": func(c *Ctx, s *Shadow, args []Value, sig *types.Signature) Value {
+			return c.St.BoolC(s.twin.IsNativelyAccessible())
+		},
+		"IsManuallyManaged": func(c *Ctx, s *Shadow, args []Value, sig *types.Signature) Value {
+			return c.St.BoolC(s.twin.IsManuallyManaged())
+		},
+		"IsMasked":         func(c *Ctx, s *Shadow, args []Value, sig *types.Signature) Value { return c.St.BoolC(s.twin.IsMasked()) },
+		"IsMaterializable": func(c *Ctx, s *Shadow, args []Value, sig *types.Signature) Value { return c.St.BoolC(s.twin.IsMaterializable()) },
+		"IsView":           func(c *Ctx, s *Shadow, args []Value, sig *types.Signature) Value { return c.St.BoolC(s.twin.IsView()) },
+		"IsMatrix":         func(c *Ctx, s *Shadow, args []Value, sig *types.Signature) Value { return c.St.BoolC(s.twin.IsMatrix()) },
+		"IsVector":         func(c *Ctx, s *Shadow, args []Value, sig *types.Signature) Value { return c.St.BoolC(s.twin.IsVector()) },
+		"IsRowVec":         func(c *Ctx, s *Shadow, args []Value, sig *types.Signature) Value { return c.St.BoolC(s.twin.IsRowVec()) },
+		"IsColVec":         func(c *Ctx, s *Shadow, args []Value, sig *types.Signature) Value { return c.St.BoolC(s.twin.IsColVec()) },
+		"RequiresIterator": func(c *Ctx, s *Shadow, args []Value, sig *types.Signature) Value { return c.St.BoolC(s.twin.RequiresIterator()) },
+		"DataOrder": func(c *Ctx, s *Shadow, args []Value, sig *types.Signature) Value {
+			return c.St.BVC(8, uint64(s.twin.DataOrder()))
+		},
 		"Dtype": func(c *Ctx, s *Shadow, args []Value, sig *types.Signature) Value {
 			return DtypeV{Idx: dtypeIndex(s.dt)}
 		},
